@@ -25,11 +25,14 @@ One == <<1, 0>>
 Max2(a, b) == IF a >= b THEN a ELSE b
 AbsI(m) == IF m < 0 THEN -m ELSE m
 
-Add(a, b) == IF ~IsExact(a) \/ ~IsExact(b) THEN Inexact
+\* (integers - exponent 0 - take a short cut: most values of the specifications are small integers)
+Add(a, b) == IF a[2] = 0 /\ b[2] = 0 THEN <<a[1] + b[1], 0>>
+             ELSE IF ~IsExact(a) \/ ~IsExact(b) THEN Inexact
              ELSE LET e == Max2(a[2], b[2]) IN Norm(a[1] * Pow2(e - a[2]) + b[1] * Pow2(e - b[2]), e)
 Neg(a) == IF ~IsExact(a) THEN Inexact ELSE <<-a[1], a[2]>>
 Sub(a, b) == Add(a, Neg(b))
-Mul(a, b) == IF ~IsExact(a) \/ ~IsExact(b) THEN Inexact ELSE Norm(a[1] * b[1], a[2] + b[2])
+Mul(a, b) == IF a[2] = 0 /\ b[2] = 0 THEN <<a[1] * b[1], 0>>
+             ELSE IF ~IsExact(a) \/ ~IsExact(b) THEN Inexact ELSE Norm(a[1] * b[1], a[2] + b[2])
 
 \* odd part and exponent of two of a non-zero integer
 RECURSIVE OddPart(_)
